@@ -61,6 +61,14 @@ def run(ctx):
             ctx.report('nondeterministic-handover', '%s/%s: Lagrange-domain objects created by one thread and transformed by another (never by two at once): %s' % (be, bu, what),
                        {'case': hl, 'scenario': 'handover', 'backend': be, 'build': bu, 'env': 'MALLOC_PERTURB_=165'})
         elif hv: ctx.evaluations += hv[4]
+        # a thread whose first FFT operation ran under a non-default x87 control word (restored afterwards): same outputs as everybody else
+        xl = 'x87 %s %d' % (spec, ctx.seed + 37)
+        xo = vlib.run_lines(exe, [xl], timeout=900)[0]; ctx.count((be, bu, 'x87'))
+        xv = ints(xo) if not xo.startswith('CRASH') and xo.strip() else None
+        if xv is None or xv[0] != 0:
+            ctx.report('nondeterministic-fp-control', '%s/%s: %s' % (be, bu, ('the run died (%s)' % xo[:60]) if xv is None else '%d of %d results of a thread whose first FFT operation ran under 53-bit / round-toward-zero x87 control (restored before evaluating) differ from the reference: '
+                       'per-thread FFT state depends on the floating-point control state at the time it was built' % (xv[0], xv[1])), {'case': xl, 'scenario': 'x87', 'backend': be, 'build': bu})
+        elif xv: ctx.evaluations += xv[1]
         # generations of short-lived threads whose first and only work is an FFT product: per-thread FFT state is created and released by
         # many threads at about the same time (for FFTW also: the planner API, which is not reentrant, must never be entered by two threads)
         cl = 'churn %d %d %d' % (12 if not thorough else 40, 16, ctx.seed + 31)
